@@ -44,6 +44,45 @@ func (fe *FE) structuralRecover() bool {
 }
 
 // checkStructuralRecover verifies the `recovers` declaration syntactically on the SSA:
+// checkCapturedLoopVars: side condition of the fork/join meta-argument FJ. A `go` statement is verified as if the task
+// ran at the fork; that is only sound if the variables the closure captures by reference are not written by the parent
+// while the task may still run. The typical violation is a goroutine capturing a loop variable that is shared by all
+// iterations (per-loop semantics before Go 1.22, or a variable declared outside the loop): a cell allocated OUTSIDE a
+// loop, stored to INSIDE that loop, and bound by a closure started with `go` inside the same loop.
+func (fe *FE) checkCapturedLoopVars() {
+	for _, h := range fe.loopOrd {
+		li := fe.loops[h]
+		for b := range li.body {
+			for _, ins := range b.Instrs {
+				g, ok := ins.(*ssa.Go)
+				if !ok {
+					continue
+				}
+				mc, ok := g.Call.Value.(*ssa.MakeClosure)
+				if !ok {
+					continue
+				}
+				for _, bd := range mc.Bindings {
+					al, ok := bd.(*ssa.Alloc)
+					if !ok || li.body[al.Block()] {
+						continue // not a cell, or a fresh cell per iteration
+					}
+					for _, ref := range *al.Referrers() {
+						if st, ok := ref.(*ssa.Store); ok && st.Addr == al && li.body[st.Block()] {
+							pos := fe.Fn.Prog.Fset.Position(g.Pos())
+							ob := &Obligation{Name: fmt.Sprintf("%s:race:captured-loop-variable.%s@%s:%d", fe.FnName, al.Comment, shortFile(pos.Filename), pos.Line), Func: fe.FnName, Kind: "race", Tags: fe.C.Props, Goal: "false", Result: "failed",
+								Detail: fmt.Sprintf("the goroutine started here captures variable %q by reference; the variable is declared outside the loop and assigned in every iteration, so the task may observe a later iteration's value (fork/join side condition)", al.Comment),
+								Src:    "captured variables of a forked task are not written by the parent before the join"}
+							fe.Obs = append(fe.Obs, ob)
+							break
+						}
+					}
+				}
+			}
+		}
+	}
+}
+
 // entry block: only allocs/stores of named results/params, MakeClosure, then Defer of a closure
 // that calls recover() unconditionally in its entry block.
 func (fe *FE) checkStructuralRecover() {
